@@ -95,10 +95,11 @@ const (
 	CtxWritev
 	WriterWrite
 	ReadFrom
+	ChWrite // Channel.Write(message) through the pipeline
 	NEP
 )
 
-var epNames = []string{"Write1", "Writev", "CtxWrite1", "CtxWritev", "Writer.Write", "ReadFrom"}
+var epNames = []string{"Write1", "Writev", "CtxWrite1", "CtxWritev", "Writer.Write", "ReadFrom", "Channel.Write"}
 
 func (e EP) String() string { return epNames[e] }
 
@@ -129,6 +130,11 @@ func Do(ch netty.Channel, ep EP, ctx context.Context, p []byte) (int64, error) {
 		return int64(n), err
 	case ReadFrom:
 		return ch.ReadFrom(onlyReader{bytes.NewReader(p)})
+	case ChWrite:
+		if err := ch.Write(p); err != nil {
+			return 0, err
+		}
+		return int64(len(p)), nil
 	}
 	panic("bad ep")
 }
